@@ -24,7 +24,18 @@ def envmod():
     return WS.envmod()
 
 
+_quiet = []
+
+
 def new_env(start=0.0):
+    if not _quiet:
+        _quiet.append(1)
+        if fwname() == "tx":
+            # critical log events (tracebacks of refused input) are printed to stderr by Twisted's
+            # log beginner while no observer is registered: register a null observer
+            from twisted.logger import globalLogBeginner
+            globalLogBeginner.beginLoggingTo([lambda ev: None], discardBuffer=True,
+                                             redirectStandardIO=False)
     return WS.new_env(start)
 
 
